@@ -78,7 +78,9 @@ func c01Reuse(c *Ctx, n int) {
 		ctx, cancel := context.WithCancel(context.Background())
 		// (i) the same defaults object twice
 		cs := map[string]any{"stream": "same defaults object, two Config calls", "a": a, "b": b}
-		src := func() dials.Source { return &static.StringSource{Data: `{"Name":"from-source"}`, Decoder: &jsondec.Decoder{}} }
+		src := func() dials.Source {
+			return &static.StringSource{Data: `{"Name":"from-source"}`, Decoder: &jsondec.Decoder{}}
+		}
 		d1, err1 := dials.Config(ctx, defaults, src())
 		if err1 != nil {
 			res.Add(Finding{Kind: "violation", What: "Config failed: " + err1.Error(), Case: cs})
